@@ -5,7 +5,7 @@
       allocatable + live + metaTotal + 2 = maxPages
    at every quiescent point is checked on the implementation (conservation oracle, capacity probe,
    Observer stats) after every transaction of long histories. *)
-From VF Require Import Region Freelist Alloc RegionProofs AllocProofs TxAllocProofs MetaAllocProofs ExtentProofs.
+From VF Require Import Region Freelist Alloc RegionProofs AllocProofs TxAllocProofs MetaAllocProofs ExtentProofs HistoryProofs.
 From VF Require C04.
 
 Theorem C11_alloc_accounting : forall a t n regs cnt a' t',
@@ -68,3 +68,11 @@ Theorem C11_never_beyond_max_in_transaction : forall a0 p a t,
   a_end (data a) <= maxPages a0 /\ a_end (meta a) <= maxPages a0.
 Proof. exact never_beyond_max_in_tx. Qed.
 Print Assumptions C11_never_beyond_max_in_transaction.
+
+(* ... and over whole histories: at every state of every transaction of every history of committed and aborted
+   transactions (without overflow area) the file ends at or below the limit *)
+Theorem C11_never_beyond_max_history : forall a0 p a t,
+  hreach a0 -> 0 < maxPages a0 -> treach2 a0 p a t ->
+  a_end (data a) <= maxPages a0 /\ a_end (meta a) <= maxPages a0 /\ maxPages a = maxPages a0.
+Proof. exact never_beyond_max_history. Qed.
+Print Assumptions C11_never_beyond_max_history.
